@@ -121,14 +121,13 @@ def check_c18(world):
                          evs[terms[1]][1], **sig))
         if terms[0] != len(names) - 1 and any(n not in ('COMPLETE', 'ABORT', 'FAIL') for n in names[terms[0] + 1:]):
             out.append(V('C18', 'event_after_terminal', f'{ctx}: events after the terminal one', None, fin[1], **sig))
-        # which terminal
+        # which terminal: COMPLETE iff the filter ended cleanly (exit() / exit_after / obeyed clean exit); ABORT if it
+        # ended by an error (its own or an obeyed one) or was interrupted (stop event)
         if nid == x:
-            kind = C08_KIND[cause]
-            open_ending = cause in ('stop', 'exit_shutdown', 'raise_shutdown') and False
-            strict = cause != 'stop' and not (cause in ('exit_shutdown',))   # stop event: 'interrupted' - either accepted
+            kind = 'clean' if C08_KIND[cause] == 'clean' and cause not in ('stop', 'exit_shutdown') else 'error'
         else:
-            kind = exp.get(nid, ('clean',))[0] if nid in exp else None
-            strict = kind == 'clean'           # obeyed error exit is swallowed by run(): either accepted
+            kind = exp[nid][0] if nid in exp else None
+        strict = True
         last = names[terms[-1]]
         first = names[terms[0]]
         if kind is not None and strict:
